@@ -846,8 +846,19 @@ func genResultSet(r *kit.Rng, base uint64, zeroLat bool) []gen.ResultSpec {
 		n = 2 + r.Pick(14)
 	}
 	rs := make([]gen.ResultSpec, n)
+	// now and then one record (not the first of the set) is large: its encoded line / message crosses
+	// the usual buffer and token limits (4 KiB, 64 KiB, 128 KiB)
+	big, bigSize := -1, 0
+	if n > 1 && r.Chance(0.3) {
+		big = 1 + r.Pick(n-1)
+		bigSize = []int{3500, 50000, 52000, 70000, 100000, 140000}[r.Pick(6)] + r.Pick(3000)
+	}
 	for i := range rs {
-		rs[i] = gen.InterResult(r, base+uint64(i), -1)
+		sz := -1
+		if i == big {
+			sz = bigSize
+		}
+		rs[i] = gen.InterResult(r, base+uint64(i), sz)
 		if r.Chance(0.3) && i > 0 { // equal timestamps and latencies now and then
 			rs[i].TsNano = rs[r.Pick(i)].TsNano
 		}
@@ -915,6 +926,26 @@ func runC13(c *run.Ctx, s *kit.Summary) {
 	w[0].Seq, w[1].Seq, w[0].Latency, w[1].Latency = 100, 101, 0, 5000000
 	cr.runSet(w, [][][]int{{{1}, {0}}}, func(k int) [][]string { return [][]string{{"gob", "gob"}, {"csv", "json"}} }, false)
 	s.Count("cli:set_with_zero_latency")
+	// dedicated sets, every run: a large record in a non-first position of its file, next to other files,
+	// in every encoding (a decoder that fails on it must not be skipped silently with its remaining records)
+	for _, sz := range []int{50000, 70000, 140000} {
+		big := genResultSet(r, base, false)
+		for len(big) < 6 {
+			big = append(big, gen.InterResult(r, base+uint64(len(big)), -1))
+		}
+		big = big[:6]
+		for k := range big {
+			big[k].Seq = base + uint64(k)
+			big[k].Body = big[k].Body[:min(len(big[k].Body), 100)]
+		}
+		bigOne := gen.InterResult(r, base+2, sz+r.Pick(2000))
+		bigOne.Seq = base + 2
+		big[2] = bigOne
+		base += 13
+		// files: {0,2,4} and {1,3,5}: the large record is the second of the first file
+		cr.runSet(big, [][][]int{{{0, 2, 4}, {1, 3, 5}}, {{1, 3, 5}, {0, 2, 4}}}, func(k int) [][]string { return allAssignments(k) }, true)
+		s.Count("cli:set_with_large_record")
+	}
 	for i := 0; i < sets; i++ {
 		zero := r.Chance(0.08)
 		results := genResultSet(r, base, zero)
